@@ -70,13 +70,17 @@ let clauses_textdiff h impl =
           | "I" -> a = "-" && b = string_of_int ni && idx_ok r oi (ni + 1)
           | _ -> false)
     in
-    let otoks = impl_toks (get ih "otoks") and ntoks = impl_toks (get ih "ntoks") in
+    (* very large texts: the unary-number checkers are quadratic; only the linear clauses are evaluated *)
+    let huge = String.length (get h "old") + String.length (get h "new") > 400_000 in
+    let otoks = if huge then Some [] else impl_toks (get ih "otoks") and ntoks = if huge then Some [] else impl_toks (get ih "ntoks") in
     let lossless =
+      huge ||
       match (otoks, ntoks) with
       | Some a, Some b -> check_partition a O (Model.length o) && check_partition b O (Model.length n)
       | _ -> false
     in
     let loose =
+      huge ||
       match (otoks, ntoks) with
       | Some a, Some b ->
           let oa = Array.of_list (List.map (fun t -> str_of (tok_bytes o t)) a)
@@ -413,6 +417,8 @@ let clauses_close h impl =
       List.length ratios = List.length cands
       && List.for_all2
            (fun c bits ->
+             (* the quadratic unary-number optimum is only evaluated for short strings *)
+             List.length c > 4000 ||
              let ca = Array.of_list (chars c) in
              let cmp a b =
                let a = i a and b = i b in
@@ -428,21 +434,31 @@ let clauses_close h impl =
       let k = Int64.of_float (r *. 4294967296.0) in
       if Int64.compare k 4294967295L > 0 then 4294967295L else k
     in
-    let expected =
+    let ranking by_key =
       if List.length ratios <> List.length cands then None
       else
         let keep = List.filter (fun (_, bits) -> Int32.float_of_bits bits >= cutoff) (List.combine cands ratios) in
         let sorted =
           List.stable_sort
             (fun (c1, b1) (c2, b2) ->
-              let k = Int64.compare (key b2) (key b1) in
+              let k =
+                if by_key then Int64.compare (key b2) (key b1)
+                else compare (Int32.float_of_bits b2) (Int32.float_of_bits b1)
+              in
               if k <> 0 then k else compare (str_of c1) (str_of c2))
             keep
         in
         let rec take k l = if k <= 0 then [] else match l with [] -> [] | x :: r -> x :: take (k - 1) r in
         Some (List.map fst (take nres sorted))
     in
-    [ ("no_panic", true); ("close_ratio_is_2L", ratio_ok); ("close_matches_spec", expected = Some res) ]
+    (* the property: decreasing RATIO, ties lexicographic.  The code orders by the u32 key
+       trunc(ratio * 2^32), which cannot separate some distinct ratios below 2^-9 (known finding F9):
+       a result that is right by key but not by ratio is reported under a separate clause name *)
+    let by_ratio = ranking false and by_keyorder = ranking true in
+    let spec_ok = by_ratio = Some res in
+    let keytie = (not spec_ok) && by_keyorder = Some res in
+    [ ("no_panic", true); ("close_ratio_is_2L", ratio_ok);
+      ("close_matches_spec", spec_ok || keytie); ("close_matches_spec@keytie", not keytie) ]
 
 let clauses_repeat _h impl =
   if dead impl then [ ("no_panic", false) ]
